@@ -1,8 +1,560 @@
-//! Implementation runner for the `derive` area: add the modes of this area to `dispatch`.
+//! Implementation runner for the `derive` area (property C15).
+//!
+//! Modes (the case line also carries the model's derive input, which this side ignores):
+//!   (dcmd TYPE spec upd)            dump of `TYPE::command()` / `command_for_update()` after `build()`
+//!   (dparse TYPE spec (argv..))     `try_parse_from`, `command().try_get_matches_from`, `from_arg_matches`
+//!   (dround TYPE spec VALUE)        construct VALUE, print it to the canonical argv, parse, compare
+//!   (dupdate TYPE spec VALUE (argv..) ...)   `try_update_from` sequence
+//!   (venum ENUM spec xINPUT icase)  `ValueEnum::from_str` + the `value_variants()`/`to_possible_value()` table
+//!
+//! The corpus types, their `Canon`/`Val` impls and the table are in the generated file
+//! `derive_corpus.rs` (vp/derive_corpus.py).  The canonical printer's per-shape helpers are the
+//! hand-written `Pr` methods below.
 use crate::sexp::Sx;
+use clap::error::ErrorKind;
+use clap::{ArgAction, Command, CommandFactory, FromArgMatches, Parser, ValueEnum};
+use std::collections::HashMap;
+use std::marker::PhantomData;
+use std::sync::OnceLock;
+
+// ------------------------------------------------------------------ canonical text of values
+pub trait Canon: Sized {
+    fn show(&self) -> String;
+    fn from_sx(sx: &Sx) -> Result<Self, String>;
+}
+
+pub fn hexs(s: &str) -> String {
+    crate::hex(s.as_bytes())
+}
+
+impl Canon for bool {
+    fn show(&self) -> String {
+        self.to_string()
+    }
+    fn from_sx(sx: &Sx) -> Result<Self, String> {
+        match sx {
+            Sx::Sym(s) if s == "true" => Ok(true),
+            Sx::Sym(s) if s == "false" => Ok(false),
+            _ => Err(format!("bool {sx:?}")),
+        }
+    }
+}
+fn sx_int(sx: &Sx) -> Result<i128, String> {
+    match sx {
+        Sx::Num(n) => Ok(*n as i128),
+        Sx::INum(n) => Ok(*n as i128),
+        _ => Err(format!("int {sx:?}")),
+    }
+}
+impl Canon for u8 {
+    fn show(&self) -> String {
+        self.to_string()
+    }
+    fn from_sx(sx: &Sx) -> Result<Self, String> {
+        u8::try_from(sx_int(sx)?).map_err(|e| e.to_string())
+    }
+}
+impl Canon for i64 {
+    fn show(&self) -> String {
+        self.to_string()
+    }
+    fn from_sx(sx: &Sx) -> Result<Self, String> {
+        i64::try_from(sx_int(sx)?).map_err(|e| e.to_string())
+    }
+}
+impl Canon for String {
+    fn show(&self) -> String {
+        hexs(self)
+    }
+    fn from_sx(sx: &Sx) -> Result<Self, String> {
+        match sx {
+            Sx::Bytes(b) => String::from_utf8(b.clone()).map_err(|e| e.to_string()),
+            _ => Err(format!("string {sx:?}")),
+        }
+    }
+}
+impl<T: Canon> Canon for Option<T> {
+    fn show(&self) -> String {
+        match self {
+            None => "none".into(),
+            Some(v) => format!("(some {})", v.show()),
+        }
+    }
+    fn from_sx(sx: &Sx) -> Result<Self, String> {
+        match sx {
+            Sx::Sym(s) if s == "none" => Ok(None),
+            Sx::List(l) if l.len() == 2 && sx.head() == "some" => Ok(Some(T::from_sx(&l[1])?)),
+            _ => Err(format!("option {sx:?}")),
+        }
+    }
+}
+impl<T: Canon> Canon for Vec<T> {
+    fn show(&self) -> String {
+        let mut s = String::from("(vec");
+        for v in self {
+            s.push(' ');
+            s.push_str(&v.show());
+        }
+        s.push(')');
+        s
+    }
+    fn from_sx(sx: &Sx) -> Result<Self, String> {
+        match sx {
+            Sx::List(l) if sx.head() == "vec" => l[1..].iter().map(T::from_sx).collect(),
+            _ => Err(format!("vec {sx:?}")),
+        }
+    }
+}
+
+/// A struct of the corpus (or the fields of an enum variant): field-wise text and printer.
+pub trait Val: Sized {
+    fn show_fields(&self, out: &mut Vec<String>);
+    fn from_fields(it: &mut std::slice::Iter<Sx>) -> Result<Self, String>;
+    fn print(&self, p: &mut Pr);
+}
+pub fn show_struct<T: Val>(v: &T) -> String {
+    let mut out = vec![];
+    v.show_fields(&mut out);
+    if out.is_empty() {
+        "(s)".into()
+    } else {
+        format!("(s {})", out.join(" "))
+    }
+}
+pub fn struct_from_sx<T: Val>(sx: &Sx) -> Result<T, String> {
+    match sx {
+        Sx::List(l) if sx.head() == "s" => {
+            let mut it = l[1..].iter();
+            let v = T::from_fields(&mut it)?;
+            if it.next().is_some() {
+                return Err("too many fields".into());
+            }
+            Ok(v)
+        }
+        _ => Err(format!("struct {sx:?}")),
+    }
+}
+pub fn nx<'a>(it: &mut std::slice::Iter<'a, Sx>) -> Result<&'a Sx, String> {
+    it.next().ok_or_else(|| "missing field".to_string())
+}
+pub fn show_enum(idx: usize, fields: Vec<String>) -> String {
+    if fields.is_empty() {
+        format!("(e {idx})")
+    } else {
+        format!("(e {idx} {})", fields.join(" "))
+    }
+}
+/// `(e IDX field...)` -> (IDX, iterator over the fields)
+pub fn enum_parts(sx: &Sx) -> Result<(usize, std::slice::Iter<Sx>), String> {
+    match sx {
+        Sx::List(l) if sx.head() == "e" && l.len() >= 2 => Ok((sx_int(&l[1])? as usize, l[2..].iter())),
+        _ => Err(format!("enum {sx:?}")),
+    }
+}
+
+// ------------------------------------------------------------------ hand-written canonical printer
+/// The textual form of one element value (what a user types for it).
+pub trait Scalar {
+    fn text(&self) -> Option<String>;
+}
+impl Scalar for bool {
+    fn text(&self) -> Option<String> {
+        Some(self.to_string())
+    }
+}
+impl Scalar for u8 {
+    fn text(&self) -> Option<String> {
+        Some(self.to_string())
+    }
+}
+impl Scalar for i64 {
+    fn text(&self) -> Option<String> {
+        Some(self.to_string())
+    }
+}
+impl Scalar for String {
+    fn text(&self) -> Option<String> {
+        Some(self.clone())
+    }
+}
+pub fn enum_text<E: ValueEnum>(e: &E) -> Option<String> {
+    e.to_possible_value().map(|p| p.get_name().to_owned())
+}
+
+#[derive(Clone, Copy)]
+pub enum K {
+    Long(&'static str),
+    Short(char),
+    Pos,
+}
+
+#[derive(Default)]
+pub struct Pr {
+    pub opts: Vec<String>,
+    pub pos: Vec<String>,
+    pub sub: Vec<String>,
+    pub unprintable: bool,
+}
+impl Pr {
+    pub fn argv(&self) -> Vec<String> {
+        let mut v = self.opts.clone();
+        if !self.pos.is_empty() {
+            v.push("--".into());
+            v.extend(self.pos.iter().cloned());
+        }
+        v.extend(self.sub.iter().cloned());
+        v
+    }
+    fn flag(k: K) -> String {
+        match k {
+            K::Long(l) => format!("--{l}"),
+            K::Short(c) => format!("-{c}"),
+            K::Pos => String::new(),
+        }
+    }
+    /// one occurrence holding `vals`
+    fn occ(&mut self, k: K, vals: Vec<String>) {
+        match k {
+            K::Pos => self.pos.extend(vals),
+            _ => match vals.len() {
+                0 => self.opts.push(Self::flag(k)),
+                1 => self.opts.push(format!("{}={}", Self::flag(k), vals[0])),
+                _ => {
+                    self.opts.push(Self::flag(k));
+                    self.opts.extend(vals);
+                }
+            },
+        }
+    }
+    fn txt<T: Scalar>(&mut self, v: &T) -> String {
+        match v.text() {
+            Some(s) => s,
+            None => {
+                self.unprintable = true;
+                String::new()
+            }
+        }
+    }
+    fn txts<T: Scalar>(&mut self, l: &[T]) -> Vec<String> {
+        l.iter().map(|v| self.txt(v)).collect()
+    }
+    pub fn flag_bool(&mut self, v: &bool, k: K) {
+        if *v {
+            self.occ(k, vec![]);
+        }
+    }
+    pub fn counter(&mut self, v: &u8, k: K) {
+        for _ in 0..*v {
+            self.occ(k, vec![]);
+        }
+    }
+    pub fn plain<T: Scalar>(&mut self, v: &T, k: K) {
+        let s = self.txt(v);
+        self.occ(k, vec![s]);
+    }
+    pub fn opt<T: Scalar>(&mut self, v: &Option<T>, k: K) {
+        if let Some(x) = v {
+            self.plain(x, k);
+        }
+    }
+    pub fn optopt<T: Scalar>(&mut self, v: &Option<Option<T>>, k: K) {
+        match v {
+            None => {}
+            Some(None) => self.occ(k, vec![]),
+            Some(Some(x)) => self.plain(x, k),
+        }
+    }
+    pub fn vec<T: Scalar>(&mut self, v: &[T], k: K) {
+        if v.is_empty() {
+            return;
+        }
+        let ss = self.txts(v);
+        match k {
+            K::Pos => self.occ(k, ss),
+            _ => {
+                for s in ss {
+                    self.occ(k, vec![s]);
+                }
+            }
+        }
+    }
+    pub fn optvec<T: Scalar>(&mut self, v: &Option<Vec<T>>, k: K) {
+        match v {
+            None => {}
+            Some(l) if l.is_empty() => match k {
+                K::Pos => self.unprintable = true,
+                _ => self.occ(k, vec![]),
+            },
+            Some(l) => self.vec(l, k),
+        }
+    }
+    pub fn vecvec<T: Scalar>(&mut self, v: &[Vec<T>], k: K) {
+        for g in v {
+            let ss = self.txts(g);
+            self.occ(k, ss);
+        }
+    }
+    pub fn optvecvec<T: Scalar>(&mut self, v: &Option<Vec<Vec<T>>>, k: K) {
+        match v {
+            None => {}
+            Some(l) if l.is_empty() => self.unprintable = true,
+            Some(l) => self.vecvec(l, k),
+        }
+    }
+    pub fn sub(&mut self, name: &str, f: impl FnOnce(&mut Pr)) {
+        let mut q = Pr::default();
+        f(&mut q);
+        self.sub.push(name.to_owned());
+        self.sub.extend(q.argv());
+        self.unprintable |= q.unprintable;
+    }
+}
+
+// ------------------------------------------------------------------ per-type operations
+pub trait Ops: Send + Sync {
+    fn command(&self, upd: bool) -> Command;
+    fn parse(&self, argv: &[String]) -> String;
+    fn round(&self, v: &Sx) -> String;
+    fn update(&self, v: &Sx, argvs: &[Vec<String>]) -> String;
+}
+pub struct TypeOps<T>(pub PhantomData<fn() -> T>);
+
+pub fn kind_name(k: ErrorKind) -> String {
+    format!("{k:?}")
+}
+fn with_bin(argv: &[String]) -> Vec<String> {
+    let mut v = vec!["prog".to_string()];
+    v.extend(argv.iter().cloned());
+    v
+}
+fn res_text<T: Canon>(r: Result<T, clap::Error>) -> String {
+    match r {
+        Ok(v) => format!("(ok {})", v.show()),
+        Err(e) => format!("(err {})", kind_name(e.kind())),
+    }
+}
+
+impl<T: Parser + Canon + Val + Clone + PartialEq + 'static> Ops for TypeOps<T> {
+    fn command(&self, upd: bool) -> Command {
+        if upd {
+            T::command_for_update()
+        } else {
+            T::command()
+        }
+    }
+    fn parse(&self, argv: &[String]) -> String {
+        let argv = with_bin(argv);
+        let direct = res_text(T::try_parse_from(argv.iter()));
+        let (cmd, fam) = match T::command().try_get_matches_from(argv.iter()) {
+            Ok(m) => ("(cmd ok)".to_string(), res_text(T::from_arg_matches(&m))),
+            Err(e) => (format!("(cmd err {})", kind_name(e.kind())), "(fam skipped)".to_string()),
+        };
+        let fam = fam.replacen("(ok", "(fam ok", 1).replacen("(err", "(fam err", 1);
+        format!("(try {}) {} {}", &direct[1..direct.len() - 1], cmd, fam)
+    }
+    fn round(&self, v: &Sx) -> String {
+        let v: T = match T::from_sx(v) {
+            Ok(v) => v,
+            Err(e) => return format!("harness-error value {e}"),
+        };
+        let mut p = Pr::default();
+        v.print(&mut p);
+        if p.unprintable {
+            return "unprintable".into();
+        }
+        let argv = p.argv();
+        let shown: Vec<String> = argv.iter().map(|s| hexs(s)).collect();
+        let back = T::try_parse_from(with_bin(&argv).iter());
+        let same = matches!(&back, Ok(b) if *b == v);
+        format!("(argv {}) (back {}) (same {})", shown.join(" "), {
+            let t = res_text(back);
+            t[1..t.len() - 1].to_string()
+        }, same)
+    }
+    fn update(&self, v: &Sx, argvs: &[Vec<String>]) -> String {
+        let mut v: T = match T::from_sx(v) {
+            Ok(v) => v,
+            Err(e) => return format!("harness-error value {e}"),
+        };
+        let mut out = vec![];
+        for a in argvs {
+            match v.try_update_from(with_bin(a).iter()) {
+                Ok(()) => out.push(format!("(ok {})", v.show())),
+                Err(e) => {
+                    out.push(format!("(err {})", kind_name(e.kind())));
+                    break;
+                }
+            }
+        }
+        out.join(" ")
+    }
+}
+
+pub trait EnumOps: Send + Sync {
+    fn from_str(&self, s: &str, icase: bool) -> Option<usize>;
+    fn table(&self) -> String;
+}
+pub trait Idx {
+    fn idx(&self) -> usize;
+}
+pub struct EnumTypeOps<E>(pub PhantomData<fn() -> E>);
+impl<E: ValueEnum + Idx + 'static> EnumOps for EnumTypeOps<E> {
+    fn from_str(&self, s: &str, icase: bool) -> Option<usize> {
+        <E as ValueEnum>::from_str(s, icase).ok().map(|v| v.idx())
+    }
+    fn table(&self) -> String {
+        let mut rows = vec![];
+        for v in E::value_variants() {
+            let names: Vec<String> = match v.to_possible_value() {
+                Some(pv) => pv.get_name_and_aliases().map(hexs).collect(),
+                None => vec!["MISSING".into()],
+            };
+            rows.push(format!("({} {})", v.idx(), names.join(" ")));
+        }
+        format!("({})", rows.join(" "))
+    }
+}
+
+#[path = "../derive_corpus.rs"]
+pub mod corpus;
+
+fn types() -> &'static HashMap<&'static str, Box<dyn Ops>> {
+    static T: OnceLock<HashMap<&'static str, Box<dyn Ops>>> = OnceLock::new();
+    T.get_or_init(|| corpus::corpus().into_iter().collect())
+}
+fn enums() -> &'static HashMap<&'static str, Box<dyn EnumOps>> {
+    static T: OnceLock<HashMap<&'static str, Box<dyn EnumOps>>> = OnceLock::new();
+    T.get_or_init(|| corpus::venums().into_iter().collect())
+}
+
+// ------------------------------------------------------------------ command dump
+fn action_name(a: &ArgAction) -> &'static str {
+    match a {
+        ArgAction::Set => "set",
+        ArgAction::Append => "append",
+        ArgAction::SetTrue => "settrue",
+        ArgAction::SetFalse => "setfalse",
+        ArgAction::Count => "count",
+        ArgAction::Help => "help",
+        ArgAction::HelpShort => "helpshort",
+        ArgAction::HelpLong => "helplong",
+        ArgAction::Version => "version",
+        _ => "other",
+    }
+}
+fn dump_cmd(c: &Command) -> String {
+    let mut parts = vec![];
+    for a in c.get_arguments() {
+        let id = a.get_id().as_str();
+        if id == "help" || id == "version" {
+            continue;
+        }
+        let num = match a.get_num_args() {
+            Some(r) => format!(
+                "(num {} {})",
+                r.min_values(),
+                if r.max_values() == usize::MAX { "inf".to_string() } else { r.max_values().to_string() }
+            ),
+            None => "(num none)".into(),
+        };
+        let short = a.get_short().map(|c| (c as u32).to_string()).unwrap_or("-".into());
+        let long = a.get_long().map(hexs).unwrap_or("-".into());
+        let index = a.get_index().map(|i| i.to_string()).unwrap_or("-".into());
+        let defaults: Vec<String> = a.get_default_values().iter().map(|d| crate::hex(d.as_encoded_bytes())).collect();
+        let delim = a.get_value_delimiter().map(|c| (c as u32).to_string()).unwrap_or("-".into());
+        parts.push(format!(
+            "(arg {} {} {} {} {} {} {} (default {}) (delim {}) {})",
+            hexs(id),
+            action_name(a.get_action()),
+            num,
+            if a.is_required_set() { "required" } else { "optional" },
+            short,
+            long,
+            index,
+            defaults.join(" "),
+            delim,
+            if a.is_ignore_case_set() { "icase" } else { "case" },
+        ));
+    }
+    for g in c.get_groups() {
+        let members: Vec<String> = g.get_args().map(|i| hexs(i.as_str())).collect();
+        parts.push(format!(
+            "(group {} {} {} ({}))",
+            hexs(g.get_id().as_str()),
+            if g.clone().is_multiple() { "multiple" } else { "single" },
+            if g.is_required_set() { "required" } else { "optional" },
+            members.join(" ")
+        ));
+    }
+    parts.push(format!(
+        "(set {} {})",
+        if c.is_subcommand_required_set() { "sub_required" } else { "-" },
+        if c.is_arg_required_else_help_set() { "arg_required_else_help" } else { "-" }
+    ));
+    for s in c.get_subcommands() {
+        if s.get_name() == "help" {
+            continue;
+        }
+        parts.push(format!("(sub {} {})", hexs(s.get_name()), dump_cmd(s)));
+    }
+    format!("({})", parts.join(" "))
+}
+
+fn strs(sx: &Sx) -> Vec<String> {
+    sx.list()
+        .iter()
+        .map(|x| match x {
+            Sx::Bytes(b) => String::from_utf8_lossy(b).into_owned(),
+            other => format!("{other:?}"),
+        })
+        .collect()
+}
+fn sym(sx: &Sx) -> String {
+    match sx {
+        Sx::Sym(s) => s.clone(),
+        _ => String::new(),
+    }
+}
 
 /// Returns `Some(result)` when `head` is a mode of this area.
 pub fn dispatch(head: &str, args: &[Sx]) -> Option<String> {
-    let _ = (head, args);
-    None
+    match head {
+        "dcmd" | "dparse" | "dround" | "dupdate" => {
+            let name = sym(&args[0]);
+            let Some(ops) = types().get(name.as_str()) else {
+                return Some(format!("unknown-type {name}"));
+            };
+            Some(match head {
+                "dcmd" => {
+                    let upd = sym(&args[2]) == "update";
+                    let mut c = ops.command(upd);
+                    c.build();
+                    dump_cmd(&c)
+                }
+                "dparse" => ops.parse(&strs(&args[2])),
+                "dround" => ops.round(&args[2]),
+                _ => {
+                    let argvs: Vec<Vec<String>> = args[3..].iter().map(strs).collect();
+                    ops.update(&args[2], &argvs)
+                }
+            })
+        }
+        "venum" => {
+            let name = sym(&args[0]);
+            let Some(ops) = enums().get(name.as_str()) else {
+                return Some(format!("unknown-enum {name}"));
+            };
+            let input = match &args[2] {
+                Sx::Bytes(b) => String::from_utf8_lossy(b).into_owned(),
+                _ => String::new(),
+            };
+            let icase = sym(&args[3]) == "true";
+            let r = match ops.from_str(&input, icase) {
+                Some(i) => format!("(some {i})"),
+                None => "none".into(),
+            };
+            Some(format!("(r {r}) (table {})", ops.table()))
+        }
+        _ => None,
+    }
 }
